@@ -338,7 +338,8 @@ func (c *boolExprSimplifyChecker) int64val(x ast.Expr) (int64, bool) {
 	if !ok {
 		return 0, false
 	}
-	v, err := strconv.ParseInt(lit.Value, 10, 64)
+	// Base 0: 010 is 8, 0x10 is 16 and 1_0 is 10.
+	v, err := strconv.ParseInt(lit.Value, 0, 64)
 	if err != nil {
 		return 0, false
 	}
